@@ -1,7 +1,11 @@
 package main
 
 import (
+	"bytes"
 	"strconv"
+	"strings"
+
+	"github.com/jeroenrinzema/psql-wire/pkg/buffer"
 
 	wire "github.com/jeroenrinzema/psql-wire"
 )
@@ -20,6 +24,48 @@ func runDirect(c *Case, kind string) *Result {
 			}
 		}
 		r.Ev = []string{"n=" + strconv.Itoa(len(ps)), "z=" + z}
+	case "accessor":
+		rd := buffer.NewReader(discardLogger, bytes.NewReader(nil), 0)
+		rd.Msg = append([]byte{}, c.In...)
+		var ev []string
+		for _, op := range strings.Split(c.Extra["ops"], ",") {
+			if op == "" {
+				continue
+			}
+			switch {
+			case op == "s":
+				v, err := rd.GetString()
+				if err != nil {
+					ev = append(ev, "-")
+				} else {
+					ev = append(ev, "+"+hx([]byte(v)))
+				}
+			case op == "u2":
+				v, err := rd.GetUint16()
+				if err != nil {
+					ev = append(ev, "-")
+				} else {
+					ev = append(ev, "+"+hx(be16(v)))
+				}
+			case op == "u4":
+				v, err := rd.GetUint32()
+				if err != nil {
+					ev = append(ev, "-")
+				} else {
+					ev = append(ev, "+"+hx(be32(v)))
+				}
+			case strings.HasPrefix(op, "b"):
+				n, _ := strconv.Atoi(op[1:])
+				v, err := rd.GetBytes(n)
+				if err != nil {
+					ev = append(ev, "-")
+				} else {
+					ev = append(ev, "+"+hx(v))
+				}
+			}
+		}
+		ev = append(ev, "rem="+hx(rd.Msg))
+		r.Ev = ev
 	default:
 		r.End = "cfgerr:unknown-direct"
 	}
